@@ -51,7 +51,20 @@ let int_of_z (x : z) : int =
   match x with Z0 -> 0 | Zpos p -> int_of_pos p | Zneg p -> - (int_of_pos p)
 let rec nat_of_int (n : int) : nat = if n <= 0 then O else S (nat_of_int (n - 1))
 
-let z_of_sx = function A s -> z_of_int (int_of_string s) | _ -> failwith "int expected"
+(* decimal text to Z without going through OCaml's 63-bit int *)
+let z_of_decimal (s : string) : z =
+  let neg = String.length s > 0 && s.[0] = '-' in
+  let start = if String.length s > 0 && (s.[0] = '-' || s.[0] = '+') then 1 else 0 in
+  if String.length s <= start then failwith "int expected";
+  let ten = z_of_int 10 in
+  let acc = ref Z0 in
+  for i = start to String.length s - 1 do
+    let c = Char.code s.[i] - 48 in
+    if c < 0 || c > 9 then failwith "int expected";
+    acc := Z.add (Z.mul !acc ten) (z_of_int c)
+  done;
+  if neg then Z.opp !acc else !acc
+let z_of_sx = function A s -> z_of_decimal s | _ -> failwith "int expected"
 (* printed through the model's own itoa: values may exceed OCaml's 63-bit int *)
 let string_of_bytes (l : z list) = String.concat "" (List.map (fun c -> String.make 1 (Char.chr ((int_of_z c) land 255))) l)
 let sx_of_z (x : z) = A (string_of_bytes (itoa x))
